@@ -264,6 +264,9 @@ func genWritePath(t *rapid.T, root *tnode, forUnset bool) []tfSeg {
 	cur := root
 	virtual := false // cur is a container that would be created by the write
 	maxSeg := drawInt(t, 1, 5, "pathlen")
+	if root.toV().Depth() > 20 && !oneIn(t, 3, "shortpath") {
+		maxSeg = 80 // deep chains: paths with dozens of segments (depth guards, recursion limits)
+	}
 	for len(segs) < maxSeg {
 		var seg tfSeg
 		var child *tnode
@@ -276,6 +279,9 @@ func genWritePath(t *rapid.T, root *tnode, forUnset bool) []tfSeg {
 			existing := 75
 			if forUnset {
 				existing = 90
+			}
+			if maxSeg > 5 {
+				existing = 98
 			}
 			if len(keys) > 0 && !virtual && drawInt(t, 0, 99, "existing") < existing {
 				k := keys[drawIdx(t, len(keys), "key")]
@@ -291,6 +297,9 @@ func genWritePath(t *rapid.T, root *tnode, forUnset bool) []tfSeg {
 			choice := pick(t, "idx", 55, 20, 25)
 			if forUnset {
 				choice = pick(t, "idx", 85, 8, 7)
+			}
+			if maxSeg > 5 {
+				choice = pick(t, "idx", 97, 2, 1)
 			}
 			switch {
 			case choice == 0 && n > 0:
@@ -314,7 +323,7 @@ func genWritePath(t *rapid.T, root *tnode, forUnset bool) []tfSeg {
 		}
 		// choose the next sigil: follow the child's kind or deliberately not
 		var nextKind Kind
-		if child != nil && (child.k == KList || child.k == KObject) && drawInt(t, 0, 9, "follow") < 7 {
+		if child != nil && (child.k == KList || child.k == KObject) && (drawInt(t, 0, 9, "follow") < 7 || (maxSeg > 5 && !oneIn(t, 30, "leave"))) {
 			nextKind = child.k
 		} else if drawBool(t, "nextlist") {
 			nextKind = KList
